@@ -21,7 +21,9 @@ def check_open(ctx, rep, spec, path, H, mode, model_replies=None):
     finest = H["finest"]
     limit = mode.get("limit")
     case = {"spec": spec, "mode": mode}
-    kw = dict(limit_level=limit, header_only=mode.get("header_only", False), maxmins=mode.get("maxmins", False))
+    # "np_limit": the limit as a numpy integer (what np.arange / np.min hand out)
+    kw = dict(limit_level=(np.int64(limit) if mode.get("np_limit") and limit is not None else limit),
+              header_only=mode.get("header_only", False), maxmins=mode.get("maxmins", False))
     p = path
     if mode.get("header_only"):
         p = ctx.newdir("c02h_")
@@ -230,6 +232,7 @@ def run_spec(ctx, rep, spec, model, only=None, previous=None):
              {"limit": finest + 1}, {"limit": finest + 1, "header_only": True}]
     for L in range(finest + 1):
         modes += [{"limit": L}, {"limit": L, "maxmins": True}, {"limit": L, "header_only": True}]
+    modes += [{"limit": finest, "np_limit": True}, {"limit": 0, "np_limit": True, "header_only": True}, {"limit": finest + 1, "np_limit": True}]
     for mode in modes:
         if only is not None and mode != only:
             continue
